@@ -33,7 +33,8 @@ enum Action {
 struct Shared {
     mono_ns: AtomicI64,
     step: AtomicUsize,
-    script: Mutex<Vec<(i64, Action)>>,
+    script: Mutex<Vec<(i64, Action, i64)>>,
+    latency_ns: AtomicI64,
     socket: Mutex<Option<UnixDatagram>>,
     mode: Mutex<Action>,
     stop: AtomicBool,
@@ -63,6 +64,12 @@ fn server(sh: Arc<Shared>) {
         match got {
             Some((n, addr, sock)) if n >= 12 => {
                 let mode = *sh.mode.lock().unwrap();
+                // chronyd is slow: virtual time passes between the request and the reply (or the
+                // timeouts). Applied once per step.
+                let lat = sh.latency_ns.swap(0, Ordering::SeqCst);
+                if lat > 0 {
+                    sh.mono_ns.fetch_add(lat, Ordering::SeqCst);
+                }
                 let seq = u32::from_be_bytes(buf[8..12].try_into().unwrap());
                 let r = Report { ref_id: 0x7f7f_0101, leap: 0, ref_time_ns: T0_REAL_S as i128 * NS, correction_bits: float_bits(1 << 12, 0), delay_bits: float_bits(1 << 12, 0), dispersion_bits: float_bits(1 << 12, 0), interval_bits: bits_of_f64(16.0) };
                 match mode {
@@ -99,7 +106,7 @@ fn kind_of(m: &Message) -> &'static str {
     }
 }
 
-fn gen_script(rng: &mut Rng, with_silent: bool) -> (i64, Vec<(i64, Action)>) {
+fn gen_script(rng: &mut Rng, with_silent: bool) -> (i64, Vec<(i64, Action, i64)>) {
     let t_start: i64 = *rng.pick(&[3i64, 100, 5000]) * NS as i64 + rng.range(0, 999_999_999);
     let mut t = t_start;
     let mut last_good: Option<i64> = None;
@@ -124,10 +131,13 @@ fn gen_script(rng: &mut Rng, with_silent: bool) -> (i64, Vec<(i64, Action)>) {
             (_, None) => match rng.below(3) { 0 => 0, 1 => rng.range(0, 4_999_999_999), _ => rng.range(0, 100_000_000_000) },
         };
         t += dt;
+        // Time that passes while chronyd holds the request (none when the socket is gone).
+        let lat: i64 = if act == Action::Vanish { 0 } else { match rng.below(4) { 0 => rng.range(1, 4_000_000_000), 1 => rng.range(1, 50_000_000), _ => 0 } };
         if act == Action::Answer {
-            last_good = Some(t);
+            last_good = Some(t + lat);
         }
-        out.push((t, act));
+        out.push((t, act, lat));
+        t += lat;
     }
     (t_start, out)
 }
@@ -137,7 +147,7 @@ pub fn run(a: &Args) -> Value {
         return json!({"inconclusive": "not inside the private /run namespace (marker /var/run/chrony/.verif-private missing)", "evaluations": 0, "violations": []});
     }
     let with_silent = a.map.get("silent").map(|s| s == "1").unwrap_or(false);
-    let sh = Arc::new(Shared { mono_ns: AtomicI64::new(0), step: AtomicUsize::new(0), script: Mutex::new(Vec::new()), socket: Mutex::new(None), mode: Mutex::new(Action::Answer), stop: AtomicBool::new(false), coarse_reads: AtomicUsize::new(0) });
+    let sh = Arc::new(Shared { mono_ns: AtomicI64::new(0), latency_ns: AtomicI64::new(0), step: AtomicUsize::new(0), script: Mutex::new(Vec::new()), socket: Mutex::new(None), mode: Mutex::new(Action::Answer), stop: AtomicBool::new(false), coarse_reads: AtomicUsize::new(0) });
     // Virtual clock: every CLOCK_MONOTONIC_COARSE read of a virtual thread starts the next step.
     {
         let sh = sh.clone();
@@ -146,9 +156,10 @@ pub fn run(a: &Args) -> Value {
                 sh.coarse_reads.fetch_add(1, Ordering::SeqCst);
                 let k = sh.step.fetch_add(1, Ordering::SeqCst);
                 let script = sh.script.lock().unwrap();
-                if let Some((t, act)) = script.get(k).cloned() {
+                if let Some((t, act, lat)) = script.get(k).cloned() {
                     drop(script);
                     sh.mono_ns.store(t, Ordering::SeqCst);
+                    sh.latency_ns.store(lat, Ordering::SeqCst);
                     *sh.mode.lock().unwrap() = act;
                     match act {
                         Action::Vanish => {
@@ -204,7 +215,7 @@ pub fn run(a: &Args) -> Value {
             run_poller_real(ctx, None, Duration::from_millis(1));
         });
         // Watchdog in real time: 5 s per silent step, 2 s otherwise.
-        let budget = script.iter().map(|(_, a)| if *a == Action::Silent { 5 } else { 2 }).sum::<u64>() + 5;
+        let budget = script.iter().map(|(_, a, _)| if *a == Action::Silent { 5 } else { 2 }).sum::<u64>() + 5;
         let (tx, rx) = std::sync::mpsc::channel();
         std::thread::spawn(move || {
             let _ = h.join();
@@ -221,21 +232,23 @@ pub fn run(a: &Args) -> Value {
             violation(&mut violations, a, "C13", "message-count", format!("{} loop iterations delivered {} messages (script {:?})", script.len(), msgs.len(), script), json!({"t_start": t_start, "script": format!("{:?}", script)}));
             continue;
         }
-        for (i, ((t, act), m)) in script.iter().zip(msgs.iter()).enumerate() {
+        for (i, ((t, act, lat), m)) in script.iter().zip(msgs.iter()).enumerate() {
             steps += 1;
             let got = kind_of(m);
+            // The grace period is judged when the query is over, i.e. `lat` after the step began.
+            let t_end = *t + *lat;
             let expected = match act {
                 Action::Answer => "ClockErrorBoundData",
-                _ => if t - last_good < 5 * NS as i64 { "ChronyNotRespondingGracePeriod" } else { "ChronyNotResponding" },
+                _ => if t_end - last_good < 5 * NS as i64 { "ChronyNotRespondingGracePeriod" } else { "ChronyNotResponding" },
             };
             *kinds.entry(format!("{:?}->{}", act, got)).or_insert(0) += 1;
             if *act != Action::Answer {
-                let d = t - last_good - 5 * NS as i64;
+                let d = t_end - last_good - 5 * NS as i64;
                 let edge = if i == 0 && last_good == t_start - 5 * NS as i64 { "start-up" } else if d == -1 { "5s-1ns" } else if d == 0 { "5s" } else if d == 1 { "5s+1ns" } else if d < 0 { "inside" } else { "beyond" };
                 *edges.entry(edge.to_string()).or_insert(0) += 1;
             }
             if got != expected {
-                violation(&mut violations, a, "C13", "real-poller-message-class", format!("step {} {:?} at monotonic {} ns, last good answer at {} ns ({} ns earlier), poller created at {} ns: message {} expected {}", i, act, t, last_good, t - last_good, t_start, got, expected),
+                violation(&mut violations, a, "C13", "real-poller-message-class", format!("step {} {:?} begun at monotonic {} ns, query over {} ns later, last good answer at {} ns ({} ns before the query was over), poller created at {} ns: message {} expected {}", i, act, t, lat, last_good, t_end - last_good, t_start, got, expected),
                           json!({"t_start": t_start, "script": format!("{:?}", script), "messages": msgs.iter().map(kind_of).collect::<Vec<_>>()}));
             }
             if let Message::ClockErrorBoundData((tr, phc, as_of)) = m {
@@ -245,11 +258,11 @@ pub fn run(a: &Args) -> Value {
                 }
             }
             if *act == Action::Answer {
-                last_good = *t;
+                last_good = t_end;
             }
         }
         if samples.len() < 2 {
-            samples.push(json!({"poller_created_at_ns": t_start, "script": script.iter().map(|(t, a)| format!("{}:{:?}", t, a)).collect::<Vec<_>>(), "messages": msgs.iter().map(kind_of).collect::<Vec<_>>()}));
+            samples.push(json!({"poller_created_at_ns": t_start, "script": script.iter().map(|(t, a, l)| format!("{}:{:?}+{}", t, a, l)).collect::<Vec<_>>(), "messages": msgs.iter().map(kind_of).collect::<Vec<_>>()}));
         }
     }
     sh.stop.store(true, Ordering::SeqCst);
